@@ -121,6 +121,39 @@ def threshold_body(at_most):
     return body
 
 
+def relative_target_body(increase, target_type):
+    """IncreaseBy/DecreaseBy hard targets: infinite penalty exactly when the output misses `baseline (1 +- f)` / `baseline +- D`"""
+
+    def body(env):
+        import atomica.optimization as ao
+
+        am, ap, au, apar, afp = mr.modules()
+        with env.installed(shim.patches_for(ao, am)):
+            P, m = _sym_model(env)
+
+            class PS:
+                programs = {}
+
+            m.progset = PS()
+            amount = env.real("amount", 0, 0.9) if target_type == "frac" else env.real("amount", 0, 1e5)
+            base = env.real("baseline", 1.0, 1e6)
+            cls = ao.IncreaseByMeasurable if increase else ao.DecreaseByMeasurable
+            meas = cls("tx", 2000.5, amount, target_type=target_type)
+            v = meas.get_objective_val(m, base)
+        tot = 0.0
+        for p in m.pops:
+            tot = tot + p.comp_lookup["tx"].vals[2]
+        if target_type == "frac":
+            target = base * (1 + amount) if increase else base * (1 - amount)
+        else:
+            target = base + amount if increase else base - amount
+        missed = (tot < target) if increase else (tot > target)
+        is_inf = isinstance(v, float) and v == float("inf")
+        env.claim("penalty_infinite_exactly_when_target_missed", env.true(env.b(missed) if is_inf else ~env.b(missed)) if env.symbolic else env.true(bool(missed) == is_inf), key="relative_target")
+
+    return body
+
+
 def initialization_body(limit_type):
     def body(env):
         import atomica.optimization as ao
@@ -368,6 +401,9 @@ def _funcs():
 def specs(tier):
     out = [("objective[%s]" % k, objective_body, dict(kind=k), ()) for k in ("single_year", "range", "pop_selection", "flow", "parameter_max")]
     out += [("threshold[at most]", threshold_body, dict(at_most=True), ()), ("threshold[at least]", threshold_body, dict(at_most=False), ())]
+    for inc in (True, False):
+        for tt in ("frac", "abs"):
+            out.append(("relative_target[%s by;%s]" % ("increase" if inc else "decrease", tt), relative_target_body, dict(increase=inc, target_type=tt), ()))
     out += [("initialization[%s]" % lt, initialization_body, dict(limit_type=lt), ("InvalidInitialConditions",)) for lt in ("abs", "rel")]
     out.append(("update_parset", update_parset_body, dict(), ()))
     out.append(("calibrate_plumbing[asd stub]", calibrate_body, dict(fail=False), ()))
